@@ -112,6 +112,14 @@ func TestVerifC07Avc(t *testing.T) {
 		{name: "avc_AVCLevel_String", widths: []int{8}, call: func(a []int64) vSx { return vS(AVCLevel(a[0]).String()) }},
 	}
 	fams := []*vC07Fam{
+		{name: "avc-big-nalu-then-small", dec: "avc.sample4", cost: "avc.sample4", costMax: 1 << 20, build: func(n int) []byte {
+			l := n / 2
+			out := append([]byte{byte(l >> 24), byte(l >> 16), byte(l >> 8), byte(l), 0x65}, make([]byte, l-1)...)
+			for len(out)+5 <= n {
+				out = append(out, 0, 0, 0, 1, 0x65)
+			}
+			return out
+		}},
 		{name: "avc-dense-nalus", dec: "avc.sample4", cost: "avc.sample4", costMax: 1 << 20, build: func(n int) []byte {
 			var out []byte
 			for len(out)+5 <= n {
